@@ -31,9 +31,9 @@ Model/IndexGroups.vos Model/IndexGroups.vok Model/IndexGroups.required_vos: Mode
 Proofs/IndexGroupsProof.vo Proofs/IndexGroupsProof.glob Proofs/IndexGroupsProof.v.beautified Proofs/IndexGroupsProof.required_vo: Proofs/IndexGroupsProof.v Lib/Bytes.vo Model/Index.vo Model/Dag.vo Model/IndexGroups.vo Proofs/IndexProof.vo Proofs/DagApi.vo
 Proofs/IndexGroupsProof.vio: Proofs/IndexGroupsProof.v Lib/Bytes.vio Model/Index.vio Model/Dag.vio Model/IndexGroups.vio Proofs/IndexProof.vio Proofs/DagApi.vio
 Proofs/IndexGroupsProof.vos Proofs/IndexGroupsProof.vok Proofs/IndexGroupsProof.required_vos: Proofs/IndexGroupsProof.v Lib/Bytes.vos Model/Index.vos Model/Dag.vos Model/IndexGroups.vos Proofs/IndexProof.vos Proofs/DagApi.vos
-Harness/Glue.vo Harness/Glue.glob Harness/Glue.v.beautified Harness/Glue.required_vo: Harness/Glue.v Lib/Bytes.vo Lib/Val.vo Model/Index.vo Model/Dag.vo Model/IndexGroups.vo Model/Git.vo Model/Tracking.vo Model/CfgFile.vo Model/Sched.vo Model/Plan.vo Model/Lock.vo Model/Reader.vo
-Harness/Glue.vio: Harness/Glue.v Lib/Bytes.vio Lib/Val.vio Model/Index.vio Model/Dag.vio Model/IndexGroups.vio Model/Git.vio Model/Tracking.vio Model/CfgFile.vio Model/Sched.vio Model/Plan.vio Model/Lock.vio Model/Reader.vio
-Harness/Glue.vos Harness/Glue.vok Harness/Glue.required_vos: Harness/Glue.v Lib/Bytes.vos Lib/Val.vos Model/Index.vos Model/Dag.vos Model/IndexGroups.vos Model/Git.vos Model/Tracking.vos Model/CfgFile.vos Model/Sched.vos Model/Plan.vos Model/Lock.vos Model/Reader.vos
+Harness/Glue.vo Harness/Glue.glob Harness/Glue.v.beautified Harness/Glue.required_vo: Harness/Glue.v Lib/Bytes.vo Lib/Val.vo Model/Index.vo Model/Dag.vo Model/IndexGroups.vo Model/Git.vo Model/Tracking.vo Model/CfgFile.vo Model/Sched.vo Model/Plan.vo Model/Lock.vo Model/Reader.vo Model/Filter.vo
+Harness/Glue.vio: Harness/Glue.v Lib/Bytes.vio Lib/Val.vio Model/Index.vio Model/Dag.vio Model/IndexGroups.vio Model/Git.vio Model/Tracking.vio Model/CfgFile.vio Model/Sched.vio Model/Plan.vio Model/Lock.vio Model/Reader.vio Model/Filter.vio
+Harness/Glue.vos Harness/Glue.vok Harness/Glue.required_vos: Harness/Glue.v Lib/Bytes.vos Lib/Val.vos Model/Index.vos Model/Dag.vos Model/IndexGroups.vos Model/Git.vos Model/Tracking.vos Model/CfgFile.vos Model/Sched.vos Model/Plan.vos Model/Lock.vos Model/Reader.vos Model/Filter.vos
 Harness/Extract.vo Harness/Extract.glob Harness/Extract.v.beautified Harness/Extract.required_vo: Harness/Extract.v Harness/Glue.vo
 Harness/Extract.vio: Harness/Extract.v Harness/Glue.vio
 Harness/Extract.vos Harness/Extract.vok Harness/Extract.required_vos: Harness/Extract.v Harness/Glue.vos
@@ -130,15 +130,18 @@ Properties/C04.vos Properties/C04.vok Properties/C04.required_vos: Properties/C0
 Proofs/SchedFinal.vo Proofs/SchedFinal.glob Proofs/SchedFinal.v.beautified Proofs/SchedFinal.required_vo: Proofs/SchedFinal.v Lib/ListX.vo Model/Sched.vo Proofs/SchedProof.vo
 Proofs/SchedFinal.vio: Proofs/SchedFinal.v Lib/ListX.vio Model/Sched.vio Proofs/SchedProof.vio
 Proofs/SchedFinal.vos Proofs/SchedFinal.vok Proofs/SchedFinal.required_vos: Proofs/SchedFinal.v Lib/ListX.vos Model/Sched.vos Proofs/SchedProof.vos
-Properties/C05.vo Properties/C05.glob Properties/C05.v.beautified Properties/C05.required_vo: Properties/C05.v Model/Sched.vo Proofs/SchedProof.vo Proofs/SchedFinal.vo
-Properties/C05.vio: Properties/C05.v Model/Sched.vio Proofs/SchedProof.vio Proofs/SchedFinal.vio
-Properties/C05.vos Properties/C05.vok Properties/C05.required_vos: Properties/C05.v Model/Sched.vos Proofs/SchedProof.vos Proofs/SchedFinal.vos
+Proofs/SchedLive.vo Proofs/SchedLive.glob Proofs/SchedLive.v.beautified Proofs/SchedLive.required_vo: Proofs/SchedLive.v Model/Sched.vo Proofs/SchedProof.vo Proofs/SchedFinal.vo
+Proofs/SchedLive.vio: Proofs/SchedLive.v Model/Sched.vio Proofs/SchedProof.vio Proofs/SchedFinal.vio
+Proofs/SchedLive.vos Proofs/SchedLive.vok Proofs/SchedLive.required_vos: Proofs/SchedLive.v Model/Sched.vos Proofs/SchedProof.vos Proofs/SchedFinal.vos
+Properties/C05.vo Properties/C05.glob Properties/C05.v.beautified Properties/C05.required_vo: Properties/C05.v Model/Sched.vo Proofs/SchedProof.vo Proofs/SchedFinal.vo Proofs/SchedLive.vo
+Properties/C05.vio: Properties/C05.v Model/Sched.vio Proofs/SchedProof.vio Proofs/SchedFinal.vio Proofs/SchedLive.vio
+Properties/C05.vos Properties/C05.vok Properties/C05.required_vos: Properties/C05.v Model/Sched.vos Proofs/SchedProof.vos Proofs/SchedFinal.vos Proofs/SchedLive.vos
 Properties/C06.vo Properties/C06.glob Properties/C06.v.beautified Properties/C06.required_vo: Properties/C06.v Model/Sched.vo Model/Compressor.vo Proofs/SchedProof.vo Proofs/SchedFinal.vo Proofs/CompressorProof.vo
 Properties/C06.vio: Properties/C06.v Model/Sched.vio Model/Compressor.vio Proofs/SchedProof.vio Proofs/SchedFinal.vio Proofs/CompressorProof.vio
 Properties/C06.vos Properties/C06.vok Properties/C06.required_vos: Properties/C06.v Model/Sched.vos Model/Compressor.vos Proofs/SchedProof.vos Proofs/SchedFinal.vos Proofs/CompressorProof.vos
-Properties/C16.vo Properties/C16.glob Properties/C16.v.beautified Properties/C16.required_vo: Properties/C16.v Model/Sched.vo Proofs/SchedProof.vo
-Properties/C16.vio: Properties/C16.v Model/Sched.vio Proofs/SchedProof.vio
-Properties/C16.vos Properties/C16.vok Properties/C16.required_vos: Properties/C16.v Model/Sched.vos Proofs/SchedProof.vos
+Properties/C16.vo Properties/C16.glob Properties/C16.v.beautified Properties/C16.required_vo: Properties/C16.v Model/Sched.vo Proofs/SchedProof.vo Proofs/SchedLive.vo
+Properties/C16.vio: Properties/C16.v Model/Sched.vio Proofs/SchedProof.vio Proofs/SchedLive.vio
+Properties/C16.vos Properties/C16.vok Properties/C16.required_vos: Properties/C16.v Model/Sched.vos Proofs/SchedProof.vos Proofs/SchedLive.vos
 Model/Plan.vo Model/Plan.glob Model/Plan.v.beautified Model/Plan.required_vo: Model/Plan.v Lib/Bytes.vo
 Model/Plan.vio: Model/Plan.v Lib/Bytes.vio
 Model/Plan.vos Model/Plan.vok Model/Plan.required_vos: Model/Plan.v Lib/Bytes.vos
@@ -166,6 +169,12 @@ Proofs/ReaderProof.vos Proofs/ReaderProof.vok Proofs/ReaderProof.required_vos: P
 Model/Compressor.vo Model/Compressor.glob Model/Compressor.v.beautified Model/Compressor.required_vo: Model/Compressor.v Model/Reader.vo
 Model/Compressor.vio: Model/Compressor.v Model/Reader.vio
 Model/Compressor.vos Model/Compressor.vok Model/Compressor.required_vos: Model/Compressor.v Model/Reader.vos
+Model/Filter.vo Model/Filter.glob Model/Filter.v.beautified Model/Filter.required_vo: Model/Filter.v Lib/Bytes.vo
+Model/Filter.vio: Model/Filter.v Lib/Bytes.vio
+Model/Filter.vos Model/Filter.vok Model/Filter.required_vos: Model/Filter.v Lib/Bytes.vos
+Proofs/FilterProof.vo Proofs/FilterProof.glob Proofs/FilterProof.v.beautified Proofs/FilterProof.required_vo: Proofs/FilterProof.v Lib/Bytes.vo Model/Reader.vo Model/Filter.vo Proofs/ReaderProof.vo
+Proofs/FilterProof.vio: Proofs/FilterProof.v Lib/Bytes.vio Model/Reader.vio Model/Filter.vio Proofs/ReaderProof.vio
+Proofs/FilterProof.vos Proofs/FilterProof.vok Proofs/FilterProof.required_vos: Proofs/FilterProof.v Lib/Bytes.vos Model/Reader.vos Model/Filter.vos Proofs/ReaderProof.vos
 Proofs/CompressorProof.vo Proofs/CompressorProof.glob Proofs/CompressorProof.v.beautified Proofs/CompressorProof.required_vo: Proofs/CompressorProof.v Model/Reader.vo Model/Compressor.vo
 Proofs/CompressorProof.vio: Proofs/CompressorProof.v Model/Reader.vio Model/Compressor.vio
 Proofs/CompressorProof.vos Proofs/CompressorProof.vok Proofs/CompressorProof.required_vos: Proofs/CompressorProof.v Model/Reader.vos Model/Compressor.vos
@@ -175,9 +184,9 @@ Properties/C08.vos Properties/C08.vok Properties/C08.required_vos: Properties/C0
 Properties/C15.vo Properties/C15.glob Properties/C15.v.beautified Properties/C15.required_vo: Properties/C15.v Model/Reader.vo Proofs/ReaderProof.vo
 Properties/C15.vio: Properties/C15.v Model/Reader.vio Proofs/ReaderProof.vio
 Properties/C15.vos Properties/C15.vok Properties/C15.required_vos: Properties/C15.v Model/Reader.vos Proofs/ReaderProof.vos
-Properties/C20.vo Properties/C20.glob Properties/C20.v.beautified Properties/C20.required_vo: Properties/C20.v Model/Reader.vo Proofs/ReaderProof.vo
-Properties/C20.vio: Properties/C20.v Model/Reader.vio Proofs/ReaderProof.vio
-Properties/C20.vos Properties/C20.vok Properties/C20.required_vos: Properties/C20.v Model/Reader.vos Proofs/ReaderProof.vos
+Properties/C20.vo Properties/C20.glob Properties/C20.v.beautified Properties/C20.required_vo: Properties/C20.v Lib/Bytes.vo Lib/Val.vo Model/Reader.vo Model/Filter.vo Proofs/ReaderProof.vo Proofs/FilterProof.vo
+Properties/C20.vio: Properties/C20.v Lib/Bytes.vio Lib/Val.vio Model/Reader.vio Model/Filter.vio Proofs/ReaderProof.vio Proofs/FilterProof.vio
+Properties/C20.vos Properties/C20.vok Properties/C20.required_vos: Properties/C20.v Lib/Bytes.vos Lib/Val.vos Model/Reader.vos Model/Filter.vos Proofs/ReaderProof.vos Proofs/FilterProof.vos
 AsFound/C08.vo AsFound/C08.glob AsFound/C08.v.beautified AsFound/C08.required_vo: AsFound/C08.v Model/Reader.vo Model/Compressor.vo Proofs/ReaderProof.vo Properties/C08.vo Properties/C15.vo
 AsFound/C08.vio: AsFound/C08.v Model/Reader.vio Model/Compressor.vio Proofs/ReaderProof.vio Properties/C08.vio Properties/C15.vio
 AsFound/C08.vos AsFound/C08.vok AsFound/C08.required_vos: AsFound/C08.v Model/Reader.vos Model/Compressor.vos Proofs/ReaderProof.vos Properties/C08.vos Properties/C15.vos
